@@ -2301,6 +2301,10 @@ class Parameters:
                     new_obj = await awaitable
                 except Skip:
                     return
+                if ref is not Undefined and private.refs.get(pname, Undefined) is not ref:
+                    # Overridden by the awaitable's own code after its last
+                    # suspension (a running task cannot be cancelled)
+                    return
                 with _batch_call_watchers(self_.self):
                     with _syncing(self_.self, (pname,)):
                         self_.update({pname: new_obj})
